@@ -394,3 +394,6 @@ def run_shard(shard):
 
 def replay(w):
     return replay_value(w, check_case, PROP, CONTRACTS)
+
+
+RULE += " Recipes include ctor-then-none (optional fields cleared by assigning None after construction); 'large' shards (deep copies of containers with up to 2100 elements / 257 entries)."
